@@ -1,6 +1,7 @@
 import CE.Cbe.Encode
 import CE.Cbe.Decode
 import CE.Canon
+import CE.Tree
 import CE.Io.Reader
 import CE.Api.Dispatch
 import CE.Gen.Api
@@ -205,8 +206,22 @@ def readerFault (args : List String) : String :=
     | _, _, _ => "BADINPUT"
   | _ => "BADINPUT"
 
+/-- TREE.EQ resolveA resolveB evsA evsB: same value trees up to map-entry order; with resolve=1
+    records are turned into maps and local references are replaced by their targets -/
+def treeEq (args : List String) : String :=
+  match args with
+  | [ra, rb, a, b] =>
+    match Ev.parseList a, Ev.parseList b with
+    | some x, some y =>
+      let flag (s : String) (c : Char) : Bool := s.toList.contains c
+      match docNormalForm (flag ra '1') x (flag ra 'h'), docNormalForm (flag rb '1') y (flag rb 'h') with
+      | some nx, some ny => if nx == ny then "1" else "0 " ++ (nx.take 600).toString ++ " <> " ++ (ny.take 600).toString
+      | _, _ => "0 malformed"
+    | _, _ => "BADINPUT"
+  | _ => "BADINPUT"
+
 def ops : List (String × (List String → String)) :=
-  [("CBE.ENC", cbeEnc), ("CBE.DEC", cbeDec), ("CANON.EQ", canonEq), ("RULES", rulesOp), ("WF.REL", wfRel), ("FWD.EQ", fwdEq), ("MEASURE", measureOp), ("CBE.MINLEN", minLenOp), ("API.DETECT", apiDetect), ("API.VERSION", apiVersion), ("READER.ALL", readerAll), ("READER.FAULT", readerFault)]
+  [("CBE.ENC", cbeEnc), ("CBE.DEC", cbeDec), ("CANON.EQ", canonEq), ("RULES", rulesOp), ("WF.REL", wfRel), ("FWD.EQ", fwdEq), ("MEASURE", measureOp), ("CBE.MINLEN", minLenOp), ("API.DETECT", apiDetect), ("API.VERSION", apiVersion), ("READER.ALL", readerAll), ("READER.FAULT", readerFault), ("TREE.EQ", treeEq)]
 
 def splitArrow : List String → List String × String
   | [] => ([], "")
@@ -220,7 +235,7 @@ def handle (line : String) : String :=
     match ops.lookup op with
     | none => s!"SKIP\t{kind}\t{id}\t{op}\tunknown-op"
     | some f =>
-      let got := f args
+      let got := (f args).replace "\n" " " 
       if got == "UNMODELLED" then s!"SKIP\t{kind}\t{id}\t{op}\tunmodelled"
       else if got == expected then "OK"
       else s!"DIFF\t{kind}\t{id}\t{op}\t{got}\t{expected}"
